@@ -638,6 +638,28 @@ func symTrimSuffix(fr *frame, args []value) value {
 
 func init() {
 	reg := func(name string, sym externalFn) { intrinsics[name] = concreteOr(name, sym) }
+	// sort.Strings sorts in place: under the C03 event log its element reads
+	// and the writes that change an element are shared-memory accesses
+	defer func() {
+		inner := intrinsics["sort.Strings"]
+		intrinsics["sort.Strings"] = func(fr *frame, args []value) value {
+			sl, _ := args[0].([]value)
+			if fr.i.conc == nil || !fr.i.conc.on || sl == nil {
+				return inner(fr, args)
+			}
+			before := append([]value(nil), sl...)
+			for k := range sl {
+				fr.i.logAccess(&sl[k], false, fr.caller)
+			}
+			r := inner(fr, args)
+			for k := range sl {
+				if before[k] != sl[k] {
+					fr.i.logAccess(&sl[k], true, fr.caller)
+				}
+			}
+			return r
+		}
+	}()
 	reg("strings.TrimSpace", symTrimSpace)
 	reg("strings.TrimLeft", symTrimLeft)
 	reg("strings.TrimRight", symTrimRight)
